@@ -221,12 +221,16 @@ type refglob struct {
 	viaSymlinkDir int // candidates only reachable by traversing a symlinked directory
 }
 
+// maxLinkHops bounds how many symlinked directories a merely-allowed path may
+// pass through (links can form cycles; the demanded set never passes any).
+const maxLinkHops = 2
+
 // descend lists the canonical relative paths below dir (a string ending in
-// "/" or ""), to any depth if deep. viaLink tells whether a symlinked
-// directory was traversed to reach the path.
-func descend(dir string, deep bool, fn func(rel string, viaLink bool)) {
-	var walk func(prefix string, viaLink bool, depth int)
-	walk = func(prefix string, viaLink bool, depth int) {
+// "/" or ""), to any depth if deep. hops tells how many symlinked directories
+// were traversed to reach the path (at most hopsLeft).
+func descend(dir string, deep bool, hopsLeft int, fn func(rel string, hops int)) {
+	var walk func(prefix string, hops int, depth int)
+	walk = func(prefix string, hops int, depth int) {
 		d := dir + prefix
 		if d == "" {
 			d = "."
@@ -237,7 +241,7 @@ func descend(dir string, deep bool, fn func(rel string, viaLink bool)) {
 		}
 		for _, e := range ents {
 			rel := prefix + e.Name()
-			fn(rel, viaLink)
+			fn(rel, hops)
 			if !deep || depth >= 7 {
 				continue
 			}
@@ -246,18 +250,18 @@ func descend(dir string, deep bool, fn func(rel string, viaLink bool)) {
 				continue
 			}
 			if li.IsDir() {
-				walk(rel+"/", viaLink, depth+1)
-			} else if li.Mode()&os.ModeSymlink != 0 {
+				walk(rel+"/", hops, depth+1)
+			} else if li.Mode()&os.ModeSymlink != 0 && hops < hopsLeft {
 				if st, err := os.Stat(dir + rel); err == nil && st.IsDir() {
-					walk(rel+"/", true, depth+1)
+					walk(rel+"/", hops+1, depth+1)
 				}
 			}
 		}
 	}
-	walk("", false, 0)
+	walk("", 0, 0)
 }
 
-func (g *refglob) expand(dir string, comps [][]piece, must bool) {
+func (g *refglob) expand(dir string, comps [][]piece, must bool, hopsLeft int) {
 	if len(comps) == 0 {
 		return
 	}
@@ -289,11 +293,11 @@ func (g *refglob) expand(dir string, comps [][]piece, must bool) {
 		}
 		// "lit/": resolved like the kernel does, i.e. following symlinks
 		if st, err := os.Stat(path + "/"); err == nil && st.IsDir() {
-			g.expand(path+"/", rest, must)
+			g.expand(path+"/", rest, must, hopsLeft)
 		}
 		return
 	}
-	descend(dir, hasStarStar(comp), func(rel string, viaLink bool) {
+	descend(dir, hasStarStar(comp), hopsLeft, func(rel string, hops int) {
 		rs := []rune(rel)
 		d, f := matchComp(comp, rs, hiddenD), matchComp(comp, rs, hiddenF)
 		if !d && !f {
@@ -304,7 +308,7 @@ func (g *refglob) expand(dir string, comps [][]piece, must bool) {
 			g.hiddenAmbig++
 			m = false
 		}
-		if viaLink {
+		if hops > 0 {
 			g.viaSymlinkDir++
 			m = false
 		}
@@ -320,13 +324,13 @@ func (g *refglob) expand(dir string, comps [][]piece, must bool) {
 			return
 		}
 		if li.IsDir() {
-			g.expand(path+"/", rest, m)
-		} else if li.Mode()&os.ModeSymlink != 0 {
+			g.expand(path+"/", rest, m, hopsLeft-hops)
+		} else if li.Mode()&os.ModeSymlink != 0 && hops < hopsLeft {
 			// a wildcard component that matched a symlink to a directory:
 			// the reference is silent on whether expansion continues below.
 			if st, err := os.Stat(path); err == nil && st.IsDir() {
 				g.viaSymlinkDir++
-				g.expand(path+"/", rest, false)
+				g.expand(path+"/", rest, false, hopsLeft-hops-1)
 			}
 		}
 	})
@@ -341,7 +345,7 @@ func expected(p *pattern, absDir string, withGlobals bool) (expectation, *refglo
 	if p.Base != "" {
 		dir = absDir + "/"
 	}
-	g.expand(dir, p.Comps, true)
+	g.expand(dir, p.Comps, true, maxLinkHops)
 	if !withGlobals {
 		return g.out, g
 	}
